@@ -138,6 +138,12 @@ func kittyCodes() []int {
 			out = append(out, s.Kitty)
 		}
 	}
+	// supplementary-plane code points whose low 16 bits are the code of a
+	// named key (Enter, Tab, Escape, the private-use functional keys): they
+	// are ordinary characters and must not be taken for that key
+	for _, low := range []int{13, 9, 27, 127, 57344, 57358, 57364, 57399, 57441} {
+		out = append(out, 0x10000+low, 0x20000+low)
+	}
 	return out
 }
 
